@@ -176,7 +176,9 @@ func (g *tgen) attr(el string, ind int) string {
 			// multi-line expression with a raw string / block comment that spans lines
 			g.note("attr-expr-multiline")
 			return g.r.pick([]string{"data-m={\n" + g.indent(ind+2) + "`a\nb`,\n" + g.indent(ind+1) + "}", "data-m={\n" + g.indent(ind+2) + "s, /* c1\n c2 */\n" + g.indent(ind+1) + "}",
-				"data-m={\n" + g.indent(ind+2) + "s,\n" + g.indent(ind+2) + "t,\n" + g.indent(ind+1) + "}"})
+				"data-m={\n" + g.indent(ind+2) + "s,\n" + g.indent(ind+2) + "t,\n" + g.indent(ind+1) + "}",
+				// a single-line expression list ending in a line comment that no space precedes; the brace is on the next line
+				"class={ \"btn\", s,\t// note\n" + g.indent(ind+1) + "}", "class={ \"link\", t,// note\n" + g.indent(ind+1) + "}", "data-m={ s,\t\t// why\n" + g.indent(ind+1) + "}"})
 		}
 		return fmt.Sprintf("%s={ %s }", g.r.pick([]string{"title", "data-v", "alt", "value", "placeholder"}), g.pickStr())
 	case k == 6:
@@ -456,7 +458,9 @@ func (g *tgen) node(ind int) (string, bool) {
 			if g.plain {
 				return "@leaf(" + g.r.pick([]string{"s", "t", `"x"`, "p.Name"}) + ")", true
 			}
-			return "@leaf(" + g.r.pick([]string{"s", "t", `"x"`, "p.Name", "func() string { return s }()", "func(a string) string {\n" + g.indent(ind+1) + "return a\n" + g.indent(ind) + "}(t)"}) + ")", true
+			return "@leaf(" + g.r.pick([]string{"s", "t", `"x"`, "p.Name", "func() string { return s }()", "func(a string) string {\n" + g.indent(ind+1) + "return a\n" + g.indent(ind) + "}(t)",
+				// gofmt removes lines (runs of blank lines) in front of a raw string that spans lines
+				"s +\n\n\n" + g.indent(ind+1) + "`r1\nr2\n\tr3`", "t +\n\n\n\n" + g.indent(ind+1) + "s +\n" + g.indent(ind+1) + "`r1\n  r2`"}) + ")", true
 		case 1:
 			g.note("call-block")
 			return fmt.Sprintf("@wrap(%s) {\n%s\n%s}", g.r.pick([]string{"s", `"t"`}), g.body(ind+1, 1+g.r.intn(2)), g.indent(ind)), true
@@ -468,7 +472,7 @@ func (g *tgen) node(ind int) (string, bool) {
 			return "@hello(s)", true
 		case 4:
 			g.note("call-legacy")
-			return g.r.pick([]string{"{! leaf(s) }", "{! leaf( s ) }", "{! leaf(s+t) }"}), true
+			return g.r.pick([]string{"{! leaf(s) }", "{! leaf( s ) }", "{! leaf(s+t) }", "{! leaf(s +\n\n\n" + g.indent(ind+1) + "`r1\nr2`) }"}), true
 		default:
 			g.note("call-block-inline")
 			return "@wrap(t) {\n" + g.indent(ind+1) + g.text() + "\n" + g.indent(ind) + "}", true
